@@ -23,6 +23,9 @@ pub enum WAct {
     /// create `n` new tasks (unique to this worker) and tag them; optionally also update the
     /// shared task
     Commit { n: u8, shared: bool, pending: bool },
+    /// flip the status of a task shared by all workers between completed and pending (so that
+    /// several handles make the same task pending at the same time)
+    Toggle,
     Undo,
     Rebuild(bool),
     Read,
@@ -60,6 +63,7 @@ pub fn strategy(processes: bool) -> BoxedStrategy<Workload> {
             } else {
                 prop_oneof![
                     6 => (1u8..4, any::<bool>(), any::<bool>()).prop_map(|(n, shared, pending)| WAct::Commit { n, shared, pending }),
+                    3 => Just(WAct::Toggle),
                     1 => any::<bool>().prop_map(WAct::Rebuild),
                     2 => Just(WAct::Read),
                 ]
@@ -77,6 +81,10 @@ pub fn strategy(processes: bool) -> BoxedStrategy<Workload> {
 
 fn shared_uuid() -> Uuid {
     Uuid::from_u128(0x5a4e)
+}
+
+fn toggle_uuid() -> Uuid {
+    Uuid::from_u128(0x70661e)
 }
 
 /// One worker: its own handle on `dir`.
@@ -130,6 +138,42 @@ pub fn worker(dir: &Path, w: usize, script: &[WAct], delay_us: u64, epoch: Insta
                         timestamp: ts(0),
                     });
                 }
+                let start = epoch.elapsed().as_micros() as u64;
+                let r = rep.commit(ops.clone());
+                let end = epoch.elapsed().as_micros() as u64;
+                log.push(LogEntry::Commit {
+                    ops,
+                    ok: r.is_ok(),
+                    start_us: start,
+                    end_us: end,
+                    err: r.err().map(|e| e.to_string()),
+                });
+            }
+            WAct::Toggle => {
+                seq += 1;
+                let cur = block_on(rep.replica.get_task_data(toggle_uuid()))
+                    .ok()
+                    .flatten()
+                    .and_then(|t| t.get("status").map(|s| s.to_string()));
+                let next = if cur.as_deref() == Some("pending") { "completed" } else { "pending" };
+                let ops = vec![
+                    Operation::UndoPoint,
+                    Operation::Update {
+                        uuid: toggle_uuid(),
+                        property: "status".into(),
+                        old_value: cur,
+                        value: Some(next.into()),
+                        timestamp: ts(0),
+                    },
+                    // the tag that identifies this commit in the audit
+                    Operation::Update {
+                        uuid: toggle_uuid(),
+                        property: "by".into(),
+                        old_value: None,
+                        value: Some(format!("w{w}s{seq}")),
+                        timestamp: ts(0),
+                    },
+                ];
                 let start = epoch.elapsed().as_micros() as u64;
                 let r = rep.commit(ops.clone());
                 let end = epoch.elapsed().as_micros() as u64;
@@ -197,6 +241,14 @@ pub fn run_workload(wl: &Workload) -> Result<Audit, Failure> {
             property: "p".into(),
             old_value: None,
             value: Some("initial".into()),
+            timestamp: ts(0),
+        },
+        Operation::Create { uuid: toggle_uuid() },
+        Operation::Update {
+            uuid: toggle_uuid(),
+            property: "status".into(),
+            old_value: None,
+            value: Some("completed".into()),
             timestamp: ts(0),
         },
     ];
